@@ -20,5 +20,5 @@ def run(chk):
                        'read_meta::no: non-metadata must be identical, each metadata field either real or default (formats may ignore the switch)',
                        'schedule clause decided on the interleavings actually produced (signatures counted), not on all interleavings']
     return chk.finish('exploration',
-                      'seeded multi-block files in PBF dense/plain, XML, OPL and o5m (3..80 type runs, parser buffers of 4 KiB / PBF decoder buffers of 1 KiB so nested buffers occur) x pool size {1,2,3,4,8,16,32} x work queue {1,2,3,10} x OSMIUM_MAX_INPUT/OSMDATA_QUEUE_SIZE {2,3,20} x PBF parsing in pool threads on/off x buffers_type x 16 entity masks x read_meta x file/memory input x consumer speed x seeded perturbation (yield/sleep at queue and pool hook points), in a TSan and an ASan build; every 6th case runs two Readers that are alive at the same time (second opened while the first is partly read, drained one after the other or in two threads, shared or separate pools) and each must deliver exactly its own file; close(2) is interposed and a close on a descriptor that is not open counts as a violation. distinct = (configuration, interleaving signature)',
-                      required_counters=['readers_run', 'objects_in_order', 'buffers_delivered', 'hook_events', 'read_meta_no_runs', 'masked_runs', 'single_type_buffer_runs', 'runs_with_more_than_20_buffers', 'reader_pairs_run'])
+                      'seeded multi-block files in PBF dense/plain, XML, OPL and o5m (3..80 type runs, parser buffers of 4 KiB / PBF decoder buffers of 1 KiB so nested buffers occur) x pool size {1,2,3,4,8,16,32} x work queue {1,2,3,10} x OSMIUM_MAX_INPUT/OSMDATA_QUEUE_SIZE {2,3,20} x PBF parsing in pool threads on/off x buffers_type x 16 entity masks x read_meta x file/memory input x consumer speed x seeded perturbation (yield/sleep at queue and pool hook points), in a TSan and an ASan build; every 6th case runs two Readers that are alive at the same time (second opened while the first is partly read, drained one after the other or in two threads, shared or separate pools) and each must deliver exactly its own file; close(2) is interposed and a close on a descriptor that is not open counts as a violation; every 5th single-Reader case consumes through InputIterator<Reader, const OSMEntity> (*it++, retained copy, or pre-increment style). distinct = (configuration, interleaving signature)',
+                      required_counters=['readers_run', 'objects_in_order', 'buffers_delivered', 'hook_events', 'read_meta_no_runs', 'masked_runs', 'single_type_buffer_runs', 'runs_with_more_than_20_buffers', 'reader_pairs_run', 'runs_through_input_iterator'])
